@@ -6,8 +6,15 @@ _split = fam_text.Split()
 _codec = fam_text.CodecFam()
 
 _stream = fam_stream.Stream()
+_calls = fam_stream.Calls()
+_foreign = fam_stream.Foreign()
+_truncate = fam_stream.Truncate()
+_order = fam_stream.Order()
+_header = fam_stream.HeaderFam()
+_chunk = fam_stream.Chunk()
+_nesting = fam_stream.Nesting()
 
-FAMILIES = {f.name: f for f in [_split, _codec, _stream]}
+FAMILIES = {f.name: f for f in [_split, _codec, _stream, _calls, _foreign, _truncate, _order, _header, _chunk, _nesting]}
 
 PROPS = {
     'C16': dict(families=[_split], trusted_base=[
